@@ -18,12 +18,16 @@ CONFIG = {
     "rule": ("left documents (nested hashes / arrays / sets / scalars over a small key alphabet) x target paths "
              "(existing single key / index, wildcard multi-target, missing and created, uncreatable, unmatchable "
              "search) x right documents of every root type x C05 option mixes; exhaustive on a core of 10 left "
-             "documents x 9 paths x 8 right documents, random option mixes beyond.  non-trivial = the path is not "
-             "the root; distinct = distinct case tuple."),
+             "documents x 9 paths x 8 right documents, random option mixes beyond; a family of 12 (document, path) "
+             "pairs in which a wildcard / search / keyword path matches two or three containers of EQUAL content "
+             "(empty lists, empty hashes, identical hashes, identical sets) x 8 right documents x option mixes.  "
+             "non-trivial = the path is not the root; distinct = distinct case tuple."),
     "trusted_base": [
         "modelled, not verified: Merger.merge_with target loop, _insert_* (coq/Model/MergeAt.v, Merge.v)",
-        "input, not modelled: Processor.get_nodes(mergeat, default_value=rhs) -- the harness runs the real Processor "
-        "on separately loaded copies and ships the yielded locations and the document after path creation",
+        "input, not modelled: Processor.get_nodes(mergeat, default_value=rhs) -- the harness runs a FRESH real "
+        "Processor on separately loaded copies (never the Merger's own _get_merge_target_nodes) and ships the "
+        "yielded locations and the document after path creation; the judge recomputes the targets the same way "
+        "and demands that EVERY matched node holds the policy-defined merge",
         "Processor.set_value for a Scalar merged into a Scalar target is modelled as 'the value becomes the "
         "right-hand value' (C03's subject)",
     ],
@@ -366,9 +370,35 @@ PATHS = ["/", "/a", "/a/b", "/k", "/*", "/x", "/x/y", "/a[0]", "/a[.=zz]", "[0]"
 RHS = ["{c: 2}", "{b: 9}", "[2, 3]", "[{id: 1, v: 2}]", "7", "!!set {y}", "{}", "~"]
 
 
+# several matched targets of EQUAL content: every one of them must receive the merge
+# (targets are nodes, i.e. objects at places, not values)
+EQUAL_TARGETS = [
+    ("{a: [], k: []}", "/*"),
+    ("{a: {}, k: {}}", "/*"),
+    ("{a: {b: 1}, k: {b: 1}}", "/*"),
+    ("{a: {b: 1}, k: {b: 1}}", "/*[has_child(b)]"),
+    ("{a: [1], k: [1], m: [1]}", "/*"),
+    ("[{a: 1}, {a: 1}]", "[a=1]"),
+    ("[{a: 1}, {a: 1}]", "/*"),
+    ("{l: [{id: 1}, {id: 1}], z: 0}", "/l[id=1]"),
+    ("{l: [[], []]}", "/l/*"),
+    ("{a: !!set {x}, k: !!set {x}}", "/*"),
+    ("{a: {b: [1]}, k: {b: [1]}}", "/*/b"),
+    ("{a: {b: {c: 1}}, k: {b: {c: 1}}}", "/*[b.c=1]/b"),
+]
+
+
 def chunks(tier, seed):
     rng = random.Random(seed)
     buf = []
+    for l, p in EQUAL_TARGETS:
+        for r in RHS:
+            mixes = [dict()] + rng.sample(c05.ALL_COMBOS, 6 if tier == "quick" else 40)
+            for o in mixes:
+                buf.append((l, r, p, o))
+                if len(buf) >= 300:
+                    yield buf
+                    buf = []
     for l in LHS:
         for p in PATHS:
             for r in RHS:
@@ -398,6 +428,9 @@ def corpus_chunks():
         ("{a: {b: 1}}", "{c: 2}", "/x/y", {}),
         ("{a: {b: 1}, k: {b: 2}}", "{c: 2}", "/*", {}),
         ("{a: 1}", "{c: 2}", "/b[.=x]", {}),
+        ("{a: [], k: []}", "[2, 3]", "/*", {}),                    # two matched targets of equal content
+        ("{a: {b: 1}, k: {b: 1}}", "{c: 2}", "/*", {}),
+        ("[{a: 1}, {a: 1}]", "{c: 2}", "[a=1]", {}),
     ]
 
 
